@@ -798,14 +798,15 @@ impl<'a> GeneratorState<'a> {
         }
     }
 
-    pub(crate) fn generate_bnot(&mut self, expr: &Expr, pos: usize) -> Result<ExprType, Error>
+    pub(crate) fn generate_bnot(&mut self, expr: &Expr, pos: usize, high_byte: bool) -> Result<ExprType, Error>
     {
         match expr {
             Expr::Integer(i) => Ok(ExprType::Immediate(!*i)),
             _ => { 
-                let left = self.generate_expr(expr, pos, false, false)?;
-                let right = ExprType::Immediate(0xff);
-                self.generate_arithm(&left, &Operation::Xor(false), &right, pos, false)
+                // Each byte of the operand is complemented: the high byte as well when it's the one asked for
+                let left = self.generate_expr(expr, pos, high_byte, high_byte)?;
+                let right = ExprType::Immediate(0xffff);
+                self.generate_arithm(&left, &Operation::Xor(false), &right, pos, high_byte)
             },
         }
     }
